@@ -94,13 +94,48 @@ func ruleCodecAgreement(w *World, r *Run, rule string) {
 			for _, c := range calls(s, "bytes.NewReader", "strings.NewReader", "bytes.NewBufferString", "bytes.NewBuffer") {
 				body = c.Args[0]
 			}
-			if body == nil {
-				continue
+			var leaves []*Term
+			// (a) the body is a string concatenation
+			if body != nil {
+				for body.Kind == "conv" {
+					body = body.Args[0]
+				}
+				leaves = concatLeaves(body)
 			}
-			for body.Kind == "conv" {
-				body = body.Args[0]
+			// (b) the body is assembled in a bytes.Buffer / strings.Builder: the ordered writes are the leaves
+			if len(leaves) < 3 {
+				var buf *Term
+				if body != nil && body.Kind == "call" && (strings.HasSuffix(body.Name, ".Bytes") || strings.HasSuffix(body.Name, ".String")) {
+					buf = body.Args[1]
+				}
+				for _, p := range calls(s, "(*net/http.Client).Post", "net/http.NewRequest", "net/http.NewRequestWithContext") {
+					for _, a0 := range p.Args {
+						if a0 != nil && a0.Kind == "alloc" && strings.Contains(typeStr(a0.Typ), "Buffer") {
+							buf = a0
+						}
+					}
+				}
+				if buf != nil {
+					leaves = nil
+					for _, ev := range s.Events {
+						if ev.Kind != "call" || ev.Recv != buf {
+							continue
+						}
+						switch {
+						case strings.HasSuffix(ev.Callee, ".WriteString"), strings.HasSuffix(ev.Callee, ".Write"):
+							x := ev.Args[0]
+							leaves = append(leaves, concatLeaves(x)...)
+						case strings.HasSuffix(ev.Callee, ".WriteByte"), strings.HasSuffix(ev.Callee, ".WriteRune"):
+							if c, ok := constVal(ev.Args[0]); ok && c.IsInt64() {
+								leaves = append(leaves, mk("const", "\""+strings.ReplaceAll(string(rune(c.Int64())), "\n", "\\n")+"\"", 0, nil))
+							} else {
+								leaves = append(leaves, ev.Args[0])
+							}
+						}
+					}
+					body = buf
+				}
 			}
-			leaves := concatLeaves(body)
 			if len(leaves) < 3 {
 				continue
 			}
@@ -112,7 +147,7 @@ func ruleCodecAgreement(w *World, r *Run, rule string) {
 			// structure: (encoded + "\n")* "\n" checkpoint
 			last := leaves[len(leaves)-1]
 			newCP := paramN(w.fn(fnBCUpdate), 3)
-			okTail := last.Kind == "conv" && last.Args[0] == newCP
+			okTail := last == newCP || (last.Kind == "conv" && last.Args[0] == newCP)
 			sep, _ := constInt(leaves[len(leaves)-2])
 			okTail = okTail && unquote(sep) == "\n"
 			mid := leaves[1 : len(leaves)-2]
